@@ -106,19 +106,20 @@ const eonOK = 3
 
 // World is one fake node + one fake database + one real syncer.
 type World struct {
-	Fl     string
-	Cfg    Cfg
-	S      int // stretch: one abstract block = S real blocks (S > 1 only for linear chains)
-	Seed   int64
-	Eth    *fakeeth.Node
-	PG     *fakepg.Server
-	Pool   *pgxpool.Pool
-	Blk    []AbsBlk
-	Canon  int
-	sync   func(ctx context.Context, h *types.Header) error
-	nBad   int
-	nOther int
-	leader *World // C16: a follower keyper shares the leader's node and tree
+	Fl        string
+	Cfg       Cfg
+	S         int // stretch: one abstract block = S real blocks (S > 1 only for linear chains)
+	Seed      int64
+	Eth       *fakeeth.Node
+	PG        *fakepg.Server
+	Pool      *pgxpool.Pool
+	Blk       []AbsBlk
+	Canon     int
+	sync      func(ctx context.Context, h *types.Header) error
+	nBad      int
+	nOther    int
+	leader    *World // C16: a follower keyper shares the leader's node and tree
+	midTarget int    // C16: the leaf the node switches to in the middle of a Sync call
 }
 
 // NewWorld builds the fakes and the real syncer of the flavour.
